@@ -198,6 +198,17 @@ def run_stream(ctx, bundles):
             cnt["traces"] += 1; cnt["class:" + cls] += 1
             c = _norm(c); mm = _norm(mm)
             if c.startswith("CRASH") or c == "HANG": cnt["c_crash_or_hang"] += 1; continue    # C04/C14 territory
+            if c != mm and " final ok " in c and " final ok " in (" " + mm):
+                # same trace, same rc/total: compare the decoded values as abstract values (an absent DEFAULT member that the
+                # C structure holds inline is dumped with its zero value by reflect.c, the model dumps it as absent)
+                try:
+                    ch, cv = (" " + c).rsplit(" final ok ", 1); mh, mv = (" " + mm).rsplit(" final ok ", 1)
+                    ct, cval = cv.split(" ", 1); mt, mval = mv.split(" ", 1)
+                    env_ = dict(m["types"])
+                    if ch == mh and ct == mt and n in env_ and genmod.same_value(env_[n], cval, mval, env_):
+                        cnt["same_up_to_inline_default"] += 1; mm = c
+                except Exception:
+                    pass
             if c == mm:
                 cnt["same"] += 1
                 fin = c.rsplit("final ", 1)[-1].split(" ", 1)[0]
